@@ -5,6 +5,7 @@ package main
 
 import (
 	"bufio"
+	"bytes"
 	"context"
 	"crypto/ecdsa"
 	"crypto/elliptic"
@@ -19,6 +20,8 @@ import (
 	"math/big"
 	"net"
 	"os"
+	"os/exec"
+	"strconv"
 	"strings"
 	"sync"
 	"syscall"
@@ -68,6 +71,65 @@ type tcase struct {
 	Reqs  []string `json:"reqs"`
 	Rec   *rec     `json:"rec"`
 	Tries int      `json:"tries"`
+	// end-to-end: run this sx binary (`sx elastic|docker --proto S -p PORT IP/32 --json -t <timeout>ms`)
+	E2E    string `json:"e2e,omitempty"`
+	Stderr string `json:"stderr,omitempty"`
+}
+
+// cliResult is what the command line printed, projected like a ScanResult.
+type cliResult struct {
+	r rec
+}
+
+func (c *cliResult) String() string               { return c.r.Host }
+func (c *cliResult) ID() string                   { return c.r.Host }
+func (c *cliResult) MarshalJSON() ([]byte, error) { return json.Marshal(c.r) }
+
+type cliProbe struct {
+	bin, kind, scheme string
+	timeout           int
+	stderr            string
+}
+
+func (p *cliProbe) Scan(ctx context.Context, r *scan.Request) (scan.Result, error) {
+	cmd := exec.CommandContext(ctx, p.bin, p.kind, "--proto", p.scheme, "-p", strconv.Itoa(int(r.DstPort)),
+		r.DstIP.String()+"/32", "--json", "-t", fmt.Sprintf("%dms", p.timeout), "--exit-delay", "20ms")
+	var so, se bytes.Buffer
+	cmd.Stdout, cmd.Stderr = &so, &se
+	err := cmd.Run()
+	p.stderr = se.String()
+	if len(p.stderr) > 300 {
+		p.stderr = p.stderr[len(p.stderr)-300:]
+	}
+	if err != nil {
+		return nil, err
+	}
+	line := strings.TrimSpace(so.String())
+	if line == "" {
+		return nil, errors.New("no record printed")
+	}
+	var m map[string]interface{}
+	if err := json.Unmarshal([]byte(strings.Split(line, "\n")[0]), &m); err != nil {
+		return nil, fmt.Errorf("unparsable output %q", line)
+	}
+	res := &cliResult{}
+	res.r.Scan, _ = m["scan"].(string)
+	res.r.Proto, _ = m["proto"].(string)
+	res.r.Host, _ = m["host"].(string)
+	info, _ := m["info"].(map[string]interface{})
+	if p.kind == "elastic" {
+		res.r.InfoNil = info == nil
+		res.r.Secondary = m["indexes"] != nil
+		res.r.InfoName, _ = info["cluster_name"].(string)
+	} else {
+		id, _ := info["ID"].(string)
+		res.r.InfoNil = id == ""
+		res.r.InfoName, _ = info["Name"].(string)
+		ver, _ := m["version"].(map[string]interface{})
+		v, _ := ver["Version"].(string)
+		res.r.Secondary = v != ""
+	}
+	return res, nil
 }
 
 const (
@@ -405,6 +467,11 @@ func runCase(c *tcase) {
 	} else {
 		s = docker.NewScanner(c.Scheme, docker.WithDataTimeout(to))
 	}
+	var cli *cliProbe
+	if c.E2E != "" {
+		cli = &cliProbe{bin: c.E2E, kind: c.Kind, scheme: c.Scheme, timeout: c.Timeout}
+		s = cli
+	}
 	ctx, cancel := context.WithCancel(context.Background())
 	defer cancel()
 	req := &scan.Request{DstIP: ip, DstPort: uint16(c.Port)}
@@ -427,6 +494,9 @@ func runCase(c *tcase) {
 		ch <- out{res, err, time.Since(start)}
 	}()
 	limit := 2*time.Duration(maxInt(c.Timeout, 0))*time.Millisecond + 2*time.Second
+	if c.E2E != "" {
+		limit += 3 * time.Second
+	}
 	var o out
 	hang := false
 	select {
@@ -449,6 +519,9 @@ func runCase(c *tcase) {
 	}
 	p.wg.Wait()
 	c.DurMS = float64(o.dur.Microseconds()) / 1000
+	if cli != nil {
+		c.Stderr = cli.stderr
+	}
 	p.mu.Lock()
 	c.Reqs = append([]string{}, p.reqs...)
 	p.mu.Unlock()
@@ -472,6 +545,8 @@ func runCase(c *tcase) {
 			if n, ok := v.Info["cluster_name"].(string); ok {
 				r.InfoName = n
 			}
+		case *cliResult:
+			*r = v.r
 		case *docker.ScanResult:
 			r.Scan, r.Proto, r.Host = v.ScanType, v.Proto, v.Host
 			r.InfoNil = v.Info.ID == ""
@@ -653,6 +728,7 @@ func main() {
 	seed := flag.Int64("seed", 1, "seed")
 	n := flag.Int("n", 60, "number of random slot combinations per probe kind")
 	par := flag.Int("par", 24, "probes in flight")
+	e2e := flag.String("e2e", "", "path of an sx binary: add end-to-end cases through the command line")
 	replay := flag.String("replay", "", "JSON file with a list of cases to run again")
 	flag.Parse()
 
@@ -675,6 +751,32 @@ func main() {
 		}
 	} else {
 		g.generate(*n)
+		if *e2e != "" {
+			for _, kind := range []string{"elastic", "docker"} {
+				sec := "indexes"
+				if kind == "docker" {
+					sec = "version"
+				}
+				for k := 0; k < 2; k++ {
+					mk := func(class string, f func(c *tcase)) {
+						c := g.base(kind)
+						c.Class, c.E2E, c.Timeout = "e2e:"+kind+":"+class, *e2e, 300
+						f(c)
+					}
+					mk("object", func(c *tcase) {})
+					mk("null", func(c *tcase) { c.Slots["info"] = ok("null") })
+					mk("array", func(c *tcase) { c.Slots["info"] = ok("array") })
+					mk("garbage", func(c *tcase) { c.Slots["info"] = ok("garbage") })
+					mk("info-404-object", func(c *tcase) { c.Slots["info"] = resp{Kind: "resp", Status: 404, Body: "object"} })
+					mk("secondary-fails", func(c *tcase) { c.Slots[sec] = resp{Kind: "close"} })
+					mk("secondary-stalls", func(c *tcase) { c.Slots[sec] = resp{Kind: "stall"} })
+					mk("info-stalls", func(c *tcase) { c.Slots["info"] = resp{Kind: "stall"} })
+					mk("info-endless", func(c *tcase) { c.Slots["info"] = ok("endless") })
+					mk("never-accepts", func(c *tcase) { c.Mode = "blackhole" })
+					mk("scheme-mismatch", func(c *tcase) { c.ServerTLS = !c.ServerTLS })
+				}
+			}
+		}
 		// warm-up (thread creation, TLS session machinery)
 		var ww sync.WaitGroup
 		for i := 0; i < *par; i++ {
